@@ -151,6 +151,34 @@ def scenarios(tier, seed):
                 return out
             ''', {'a': 'real', 'ea': 'real'}, ['v.ea >= 0', 'v.a > 0'], consts={'u': u, 'w': w, 'ratio': ratio}, preamble=PRE,
             what=f'linear conversion {u} -> {w} of an uncertain quantity'))
+    # a bare number (or a ratio of lengths) converted to radians: linear although the dimensions differ
+    for u, w, ratio in ((None, 'mrad', 1000.0), (None, 'rad', 1.0), ('cm/m', 'mrad', 10.0), ('mrad', 'rad', 0.001)):
+        S.append(Scenario(f'convert-number/{u}->{w}', '''
+            def run(v, O):
+                q = Quantity(v.a, v.u, abse=v.ea) if v.u else Quantity(v.a, abse=v.ea)
+                r0 = q.rele()
+                w = q.value(v.w)
+                q.to(v.w)
+                return [('to:abse scales like the value', O.eq(q.abse(), v.ea * v.ratio, 1e-6)), ('to:value', O.eq(q.value(), v.a * v.ratio, 1e-6)),
+                        ('value(unit)', O.eq(w, v.a * v.ratio, 1e-6)), ('to:rele unchanged', O.eq(q.rele(), r0, 1e-6))]
+            ''', {'a': 'real', 'ea': 'real'}, ['v.ea >= 0', 'v.a > 0'], consts={'u': u, 'w': w, 'ratio': ratio}, preamble=PRE,
+            what=f'conversion {u} -> {w} of an uncertain dimensionless quantity'))
+    # products and quotients of uncertain quantities in different units (units that cancel are folded into the number: the uncertainty must follow)
+    for u, w, op in (('m', 'cm', '/'), ('km', 'mm-1', '*'), ('m', 's', '/'), ('J', 'erg', '/'), ('km/h', 'm/s', '/'), ('kg', 'g-1', '*'), ('m', 'm', '/'), ('cm', 'm', '*')):
+        fu, fw = unitkit.ref_parse(u).value(), unitkit.ref_parse(w).value()
+        S.append(Scenario(f'quantity-muldiv/{u}{op}{w}', '''
+            def run(v, O):
+                A = Quantity(v.a, v.u, abse=v.ea); B = Quantity(v.b, v.w, abse=v.eb)
+                r = (A / B) if v.op == '/' else (A * B)
+                f = ref_units(r.units())[0] if r.units() else 1.0          # base-unit factor of whatever units the result carries (reference tables)
+                val, err = r.value() * f, r.abse() * f
+                if v.op == '/':
+                    k = v.fu / v.fw
+                    return [('a/b value', O.eq(val * v.b, k * v.a, 1e-6)), ('a/b first-order bound', O.ge(err * v.b * v.b, k * (v.a * v.eb + v.b * v.ea))), ('a/b:nonneg', O.ge(r.abse(), 0))]
+                k = v.fu * v.fw
+                return [('a*b value', O.eq(val, k * v.a * v.b, 1e-6)), ('a*b first-order bound', O.ge(err, k * (v.a * v.eb + v.b * v.ea))), ('a*b:nonneg', O.ge(r.abse(), 0))]
+            ''', R4, E2 + ['v.a > 0', 'v.b > 0', 'v.eb < v.b'], consts={'u': u, 'w': w, 'op': op, 'fu': fu, 'fw': fw}, preamble=PRE + unitkit.REF_SRC,
+            what=f'{u} {op} {w} of two uncertain positive quantities'))
     for u, w in pairs[:6]:
         ratio = unitkit.ref_parse(u).value() / unitkit.ref_parse(w).value()
         S.append(Scenario(f'convert-decimal/{u}->{w}', '''
